@@ -50,16 +50,16 @@ impl Property for C07 {
     type Case = Case;
     const ID: &'static str = "C07";
     fn rule() -> &'static str {
-        "2D: closed reference curves with enough features to fix 3 degrees of freedom (star polygons, L-shapes, rectangles with a notch; size 1e-1..1e2; any pose) with 12-200 sample points exactly on the curve; 3D: boxes, skewed prisms and octahedra in any pose with 200-800 points from the harness's own area-weighted sampler. Recovery family: displacement about the shape centroid of up to 3 deg / 2 % of the size (2D, at least 40 points, a sample set whose normal matrix is well conditioned, at most a tenth of the samples matched to a wrong edge or to a corner at the start), 5 deg / 3 % (3D), starting from the identity or a second small perturbation, both distance modes: the returned transform composed with the displacement must be the identity to 1e-4 (angle in radians, shift relative to the size). Honesty family: displacements up to 40 deg / 30 %: whenever the solver reports success the i-th residual must equal the mode-specific distance recomputed by exhaustive scan from the returned transform alone, the average must match, and the sum of squares must not exceed its value at the start. Already-aligned family (4 %): the samples are the reference's own vertices, zero displacement, identity start - every residual is exactly zero at the start and the identity must come back. Non-trivial: rotation > 1 deg and translation > 1 % (recovery); success with a final sum of squares > 1e-6 size^2 (honesty). Distinct = distinct canonical JSON."
+        "2D: closed reference curves with enough features to fix 3 degrees of freedom (star polygons, L-shapes, rectangles with a notch; size 1e-1..1e2, a quarter of them 1e-7..1e-1 with the pose scaled alike; any pose) with 12-200 sample points exactly on the curve; 3D: boxes, skewed prisms and octahedra in any pose with 200-800 points from the harness's own area-weighted sampler. Recovery family: displacement about the shape centroid of up to 3 deg / 2 % of the size (2D, at least 40 points, a sample set whose normal matrix is well conditioned, at most a tenth of the samples matched to a wrong edge or to a corner at the start), 5 deg / 3 % (3D), starting from the identity or a second small perturbation, both distance modes: the returned transform composed with the displacement must be the identity to 1e-4 (angle in radians, shift relative to the size). Honesty family: displacements up to 40 deg / 30 %: whenever the solver reports success the i-th residual must equal the mode-specific distance recomputed by exhaustive scan from the returned transform alone, the average must match, and the sum of squares must not exceed its value at the start. Already-aligned family (4 %): the samples are the reference's own vertices, zero displacement, identity start - every residual is exactly zero at the start and the identity must come back. Non-trivial: rotation > 1 deg and translation > 1 % (recovery); success with a final sum of squares > 1e-6 size^2 (honesty). Distinct = distinct canonical JSON."
     }
     fn cases(t: Tier) -> u32 {
         t.pick(80_000, 1_000_000)
     }
     fn expected_labels() -> Vec<&'static str> {
-        vec!["recover2", "recover3", "honest2", "honest3", "to_plane", "to_point", "with_guess", "nonzero_residual", "at_solution"]
+        vec!["recover2", "recover3", "honest2", "honest3", "to_plane", "to_point", "with_guess", "nonzero_residual", "at_solution", "size_below_0.1"]
     }
     fn strategy(_t: Tier) -> BoxedStrategy<Case> {
-        let a2 = (shape2(), logu(-1.0, 2.0), iso2(100.0), prop::collection::vec(unif(0.0, 1.0), 40..200), any::<bool>(), unif(-1.0, 1.0), (unif(-1.0, 1.0), unif(-1.0, 1.0)), prop::option::of((unif(-1.0, 1.0), (unif(-1.0, 1.0), unif(-1.0, 1.0)))), prop::bool::weighted(0.04))
+        let a2 = (shape2(), prop_oneof![3 => logu(-1.0, 2.0), 1 => logu(-7.0, -1.0)], iso2(100.0), prop::collection::vec(unif(0.0, 1.0), 40..200), any::<bool>(), unif(-1.0, 1.0), (unif(-1.0, 1.0), unif(-1.0, 1.0)), prop::option::of((unif(-1.0, 1.0), (unif(-1.0, 1.0), unif(-1.0, 1.0)))), prop::bool::weighted(0.04))
             .prop_map(|(shape, scale, pose, fracs, honesty, a, t, guess, at_solution)| {
                 if at_solution {
                     return Case::A2 { shape, scale, pose, fracs, angle: 0.0, t: [0.0, 0.0], guess: None, honesty: false, at_solution };
@@ -103,7 +103,11 @@ fn polygon(shape: &Shape2) -> Vec<Point2> {
 fn align2(shape: &Shape2, scale: f64, pose: &Iso2D, fracs: &[f64], angle_deg: f64, t: &P2, guess: &Option<(f64, P2)>, honesty: bool, at_solution: bool) -> Verdict {
     let mut cx = Ctx::new();
     cx.label(if honesty { "honest2" } else { "recover2" });
-    let place = pose.to_iso();
+    let mut place = pose.to_iso();
+    if scale < 0.1 {
+        place.translation.vector *= scale;
+        cx.label("size_below_0.1");
+    }
     let mut pts: Vec<Point2> = polygon(shape).iter().map(|p| place * Point2::from(p.coords * scale)).collect();
     pts.push(pts[0]);
     let curve = match Curve2::from_points(&pts, 1e-9 * scale, false) {
